@@ -2,8 +2,8 @@
 C08 — search, prefetch and gather results do not depend on how the database is organised.
 
 Models: `Model/SearchDb.lean` (`Index.find` / `Index.search` of an in-memory collection,
-`search_databases_with_flat_query`: per-collection search, md5 de-duplication keeping the first row seen,
-final sort; `commands.prefetch` over several collections) and the gather model of C07, both on list
+`search_databases_with_flat_query`: per-collection search, de-duplication on `(md5, scaled, num)` keeping the
+first row seen, final sort; `commands.prefetch` over several collections) and the gather model of C07, both on list
 sketches.  An *organisation* of a set of sketches is a list of collections (`List (List (Sig LS))`):
 how many collections, which sketch goes where, in which order it was inserted.  Two organisations hold
 the same sketches when their concatenations are permutations of each other.  Container types other than
@@ -11,11 +11,13 @@ the in-memory list are related to lists by C06 (each container's `find` = linear
 exercised by the `partition` stream.
 
 Statements.
-* `search_partition` / `search_insertion_order` / `search_organisation`: the (md5, score) pairs returned
-  are the same multiset — provided sketches with equal md5 score equally (`hkey`).  Without `hkey` the
-  statement is FALSE (`search_dedup_depends_on_order`): md5 is computed from the hashes alone, so the same
-  hashes stored at two scaled values share an md5 but not a score, and the de-duplication keeps whichever
-  row it sees first.
+* `search_partition` / `search_insertion_order` / `search_organisation`: the (md5, scaled, score) triples
+  returned are the same multiset.  The only hypothesis about md5 values is `MD5OK` (sketches with equal md5
+  have equal hashes: md5 is computed from the hashes, collisions are outside the model); that rows with the
+  same de-duplication key `(md5, scaled, num)` score equally is PROVED from the model (`same_key_same_score`).
+  Finding C08.1 (fixed upstream): the key used to be the md5 alone, and the same hashes stored at two scaled
+  values share an md5 but not a score, so the row reported depended on the collection order; the old witness is
+  kept as the regression check `search_dedup_regression`.
 * `prefetch_organisation`: multi-collection prefetch returns `find` over the concatenation (no
   de-duplication): equal concatenations give equal rows, permuted ones permuted rows.
 * `gather_partition`: two prefetch-mode gather runs over two organisations of the same sketches (database at
@@ -39,27 +41,35 @@ variable {σ : Type} {ops : ScoreOps σ}
 
 /-! ### tie to the source -/
 
-/-- `search_databases_with_flat_query` de-duplicates on `match.md5sum()` (`dedupMd5`) and `best_containment`
-sorts on `(-score, md5)` (`bestOf`), as re-read by the translator -/
-theorem translator_shapes : Gen.searchDedupKey = "md5" ∧ Gen.bestContainmentKey = "-score,md5" := by decide
+/-- `search_databases_with_flat_query` de-duplicates on `(match.md5sum(), match.minhash.scaled,
+match.minhash.num)` (`dedupKey` / `sigKey`) and `best_containment` sorts on `(-score, md5)` (`bestOf`), as
+re-read by the translator -/
+theorem translator_shapes :
+    Gen.searchDedupKey = "md5,scaled,num" ∧ Gen.bestContainmentKey = "-score,md5" := by decide
 
 /-! ### search -/
+
+/-- rows with the same de-duplication key score equally — from the model: the score depends on the database
+sketch only through its scaled value and its hashes, and equal md5 means equal hashes -/
+theorem same_key_same_score (st : SearchType) (pq : LS) {db : List (Sig LS)} (hmd5 : MD5OK db)
+    {d d' : Sig LS} (hd : d ∈ db) (hd' : d' ∈ db) (hk : sigKey lsOps d = sigKey lsOps d') :
+    findScoreS st pq d.mh = findScoreS st pq d'.mh := by
+  have h1 : d.md5 = d'.md5 := congrArg Prod.fst hk
+  have h2 : d.mh.scaled = d'.mh.scaled := congrArg (fun k => k.2.1) hk
+  exact findScoreS_congr st pq h2 (hmd5 d hd d' hd' h1)
 
 /-- `search_organisation`: any two organisations of the same sketches -/
 theorem search_organisation (st : SearchType) {pq : LS} (hp : pq.WF) (hflat : pq.ab = none) (thr : F64.F)
     {dbs dbs' : List (List (Sig LS))} (hwf : ∀ db ∈ dbs, ∀ d ∈ db, d.mh.WF)
     (hwf' : ∀ db ∈ dbs', ∀ d ∈ db, d.mh.WF) (hperm : dbs.flatten.Perm dbs'.flatten)
-    (hkey : ∀ d ∈ dbs.flatten, ∀ d' ∈ dbs.flatten, d.md5 = d'.md5 →
-      findScoreS st pq d.mh = findScoreS st pq d'.mh) :
+    (hmd5 : MD5OK dbs.flatten) :
     ∃ r r', searchDatabases lsOps st dbs pq thr false = .ok r ∧
       searchDatabases lsOps st dbs' pq thr false = .ok r' ∧ (r.map rowKey).Perm (r'.map rowKey) :=
-  search_perm st hp hflat thr hwf hwf' hperm hkey
+  search_perm st hp hflat thr hwf hwf' hperm hmd5
 
 /-- `search_partition`: one collection `db₁ ++ db₂` against the two collections `db₁`, `db₂` -/
 theorem search_partition (st : SearchType) {pq : LS} (hp : pq.WF) (hflat : pq.ab = none) (thr : F64.F)
-    {db1 db2 : List (Sig LS)} (hwf : ∀ d ∈ db1 ++ db2, d.mh.WF)
-    (hkey : ∀ d ∈ db1 ++ db2, ∀ d' ∈ db1 ++ db2, d.md5 = d'.md5 →
-      findScoreS st pq d.mh = findScoreS st pq d'.mh) :
+    {db1 db2 : List (Sig LS)} (hwf : ∀ d ∈ db1 ++ db2, d.mh.WF) (hmd5 : MD5OK (db1 ++ db2)) :
     ∃ r r', searchDatabases lsOps st [db1 ++ db2] pq thr false = .ok r ∧
       searchDatabases lsOps st [db1, db2] pq thr false = .ok r' ∧ (r.map rowKey).Perm (r'.map rowKey) := by
   apply search_perm st hp hflat thr
@@ -71,12 +81,11 @@ theorem search_partition (st : SearchType) {pq : LS} (hp : pq.WF) (hflat : pq.ab
     · exact hwf d (List.mem_append_left _ hd)
     · exact hwf d (List.mem_append_right _ hd)
   · simp
-  · simpa using hkey
+  · simpa using hmd5
 
 /-- `search_insertion_order`: the same collection filled in another order -/
 theorem search_insertion_order (st : SearchType) {pq : LS} (hp : pq.WF) (hflat : pq.ab = none) (thr : F64.F)
-    {db db' : List (Sig LS)} (hperm : db.Perm db') (hwf : ∀ d ∈ db, d.mh.WF)
-    (hkey : ∀ d ∈ db, ∀ d' ∈ db, d.md5 = d'.md5 → findScoreS st pq d.mh = findScoreS st pq d'.mh) :
+    {db db' : List (Sig LS)} (hperm : db.Perm db') (hwf : ∀ d ∈ db, d.mh.WF) (hmd5 : MD5OK db) :
     ∃ r r', searchDatabases lsOps st [db] pq thr false = .ok r ∧
       searchDatabases lsOps st [db'] pq thr false = .ok r' ∧ (r.map rowKey).Perm (r'.map rowKey) := by
   apply search_perm st hp hflat thr
@@ -85,12 +94,13 @@ theorem search_insertion_order (st : SearchType) {pq : LS} (hp : pq.WF) (hflat :
   · intro x hx d hd
     simp only [List.mem_singleton] at hx; subst hx; exact hwf d (hperm.mem_iff.2 hd)
   · simpa using hperm
-  · simpa using hkey
+  · simpa using hmd5
 
-/- FULL STATEMENT (not proved / false): `search_organisation` without `hkey`.
-   Counterexample: the hashes {1, 2} stored at scaled 2 and at scaled 4 (same md5); Jaccard with the query is
-   2/6 resp. 2/3; searching [[A],[B]] reports md5 7 with 2/6, [[B],[A]] and [[A,B]] report it with 2/3. -/
-theorem search_dedup_depends_on_order : dupCheck = true := dupCheck_true
+/-- **regression for finding C08.1 (fixed upstream)**: the hashes {1, 2} stored at scaled 2 and at scaled 4 (same
+md5, `dup_md5ok`); Jaccard with the query is 2/6 resp. 2/3.  With the md5-only key, searching [[A],[B]] reported
+md5 7 with 2/6 while [[B],[A]] and [[A,B]] reported it with 2/3; with the key `(md5, scaled, num)` the three
+organisations report the same two rows. -/
+theorem search_dedup_regression : dupCheck = true ∧ MD5OK [dupA, dupB] := ⟨dupCheck_true, dup_md5ok⟩
 
 /-! ### prefetch over several collections -/
 
@@ -197,7 +207,7 @@ database against its (flattened) query -/
 example :
     (match searchDatabases lsOps .containment [[exD1, exD2], [exD3]] exQuery.flat fzero false with
      | .ok r => r.map rowKey
-     | .error _ => []) = [(12, F64.divNat 11 20), (11, F64.divNat 10 20), (13, F64.divNat 5 20)] := by
+     | .error _ => []) = [(12, 2, F64.divNat 11 20), (11, 2, F64.divNat 10 20), (13, 2, F64.divNat 5 20)] := by
   decide +kernel
 
 end Sm.C08
